@@ -48,6 +48,9 @@ def gen_case(rng, allow=None, n_max=6, deviations=False):
             break
     case = {'config': gen_config(rng), 'seq': seq, 'seg_seed': rng.randrange(1 << 30),
             'seg_mode': rng.choice(['whole', 'bytes', 'random', 'random', 'cut'])}
+    if case['config']['rerun'] and case['config']['max_size'] and not case['config']['appending']:
+        case['config']['compress'] = False      # (sizes of gzip members vary with the record ids: file numbering would too)
+        case['config']['dedup'] = False
     if rng.random() < 0.1 and not any(r['classes']['framing'] in ('overrun', 'overrun0', 'nobody+cl', 'head+cl') for r in seq):
         # the client option --ignore-length (Content-Length not trusted; such bodies end with the connection): every
         # response is followed by the end of its connection
@@ -151,8 +154,13 @@ def run_case(case, keep_dir=None):
     try:
         seq = case['seq']
         rounds = [seq]
-        rerun = cfg.get('rerun') and not cfg['appending'] and not cfg['max_size'] and len(seq) > 1
-        if (cfg['appending'] or rerun) and len(seq) > 1:
+        rerun = cfg.get('rerun') and not cfg['appending'] and len(seq) > 1
+        rerun_same = bool(rerun and cfg['max_size'])
+        if rerun_same:
+            # with size rollover the second (fresh) run repeats the first exchange for exchange, so that it produces the same
+            # numbered files and every file of the first run is started over
+            rounds = [seq, seq]
+        elif (cfg['appending'] or rerun) and len(seq) > 1:
             h = len(seq) // 2
             rounds = [seq[:h], seq[h:]]
         visits = StubVisits() if cfg['dedup'] else None
@@ -164,8 +172,11 @@ def run_case(case, keep_dir=None):
                 url_table=visits)
             recorder = WARCRecorder(prefix, params=params)
             responses = []
+            if rerun_same:
+                serial = 0
+                rng = random.Random(case['seg_seed'] + 17)
             for i, r in enumerate(rnd):
-                url = 'http://h.test/p{}/r{}?q={}'.format(rnd_index, serial, i)
+                url = 'http://h.test/p{}/r{}?q={}'.format(0 if rerun_same else rnd_index, serial, i)
                 if rng.random() < 0.1:
                     # very long URLs (around and beyond 1024 characters, where header writers start to fold lines)
                     total = rng.choice([1023, 1024, 1025, 1500, 2100, 4000])
